@@ -56,11 +56,23 @@ func (self *Analyzer) lastIsErrorAt(span errors.Span) bool {
     ensures @different-kind got.Kind() != expected.Kind() && got.Kind() != ast.UnknownTypeKind && got.Kind() != ast.NeverTypeKind && expected.Kind() != ast.UnknownTypeKind && expected.Kind() != ast.NeverTypeKind ==> err != nil && err.GotDiagnostic.Level == diagnostic.DiagnosticLevelError
 @*/
 
+// Function types (structural part): for every expected parameter either a
+// parameter of that name exists in the given function type (its type is then
+// checked) or - only when name mismatches are ignored - the parameter at the
+// same position was checked and is compatible. (Stated as assertions at the
+// two places where a parameter is accepted: a postcondition would have to
+// mention TypeCheck itself, whose result hvc cannot relate across the
+// allocation of the diagnostics the recursive call builds.)
+
 /*@ func (self *Analyzer) TypeCheck
     serves C03
     assume-safety
+    split got.Kind() in 0..14
     assumepre TypeCheck
     requires got != nil && expected != nil
+    assert @unnamed-parameter-type-checked before-each continue :: options.IgnoreFnParamNameMismatches && paramTypeErr == nil && foundParam == nil
+    assert @named-parameter-found before if err := self.TypeCheck(foundParam.Type, expectedParam.Type, options); err != nil :: foundParam != nil && foundParam.Name.Ident() == expectedParam.Name.Ident()
+    loop "range gotFnParams.Params" invariant foundParam == nil || foundParam.Name.Ident() == expectedParam.Name.Ident()
     ensures @silent len(self.diagnostics) == old(len(self.diagnostics))
     ensures @scalars-same-kind ast.VScalarKind(got.Kind()) && got.Kind() == expected.Kind() ==> result == nil
     ensures @scalars-different-kind ast.VScalarKind(got.Kind()) && ast.VScalarKind(expected.Kind()) && got.Kind() != expected.Kind() ==> result != nil && result.GotDiagnostic.Level == diagnostic.DiagnosticLevelError
